@@ -11,7 +11,7 @@ Bs == 0..(NB - 1)
 \* <<pat, src, dst>>; src / dst that the pattern does not use are 0
 RouteSet == {<<0, 0, b>> : b \in Bs} \cup {<<1, a, 0>> : a \in As}
             \cup {<<2, a, b>> : a \in As, b \in Bs} \cup {<<3, 0, 0>>}
-            \cup {<<4, 0, b>> : b \in Bs}
+            \cup {<<4, 0, b>> : b \in Bs} \cup {<<5, a, 0>> : a \in As}
 Scripts == UNION {[1..k -> RouteSet] : k \in 1..MaxMsgs}
 
 ASSUME \A s \in Scripts : PrintT(<<"CASE", ToJson([msgs |-> s])>>)
